@@ -53,6 +53,7 @@ type jobResult struct {
 	Files     int       `json:"files"`
 	Rows      int       `json:"rows"`
 	Accepted  int       `json:"accepted"`
+	Micros    int64     `json:"us"` // wall time of the job inside the worker (diagnostics only, never judged)
 }
 
 func bufSize(mode string) int {
@@ -137,7 +138,7 @@ func (s *sys) send(a *atom, p int) (int, string, string) {
 	for _, h := range a.Hdr {
 		hr.Header.Set(h[0], h[1])
 	}
-	resp, err := s.srv.GetApp().Test(hr, 60000)
+	resp, err := s.srv.GetApp().Test(hr, -1)
 	if err != nil {
 		return -1, err.Error(), ""
 	}
@@ -226,7 +227,13 @@ func runJob(A []atom, j job, tail *errTail) jobResult {
 	// Barrier: a flush goroutine that panicked has already run its deferred wg.Done(), so Close() can
 	// return while the runtime is still busy killing the process. A stop-the-world request cannot
 	// complete once the dying goroutine froze the world, so this goroutine parks here until exit(2).
-	runtime.GC()
+	stk := make([]byte, 1<<20)
+	stk = stk[:runtime.Stack(stk, true)]
+	if bytes.Contains(stk, []byte("github.com/basekick-labs/arc/internal/")) {
+		// a goroutine of the system under test is still alive after Close(): it is on its way down
+		// (or stuck); wait for the process to die / the watchdog to report a hang
+		select {}
+	}
 
 	// ---- oracle over the store ----
 	byPos := make([][]hx.Row, n)
@@ -385,12 +392,14 @@ func workerMain() {
 	for _, j := range jobs {
 		fmt.Fprintf(w, "B %d\n", j.ID)
 		w.Flush()
-		wd := time.AfterFunc(180*time.Second, func() {
+		wd := time.AfterFunc(900*time.Second, func() {
 			fmt.Fprintf(os.Stderr, "C04-HANG job %d\n", j.ID)
 			pprof.Lookup("goroutine").WriteTo(os.Stderr, 2)
 			os.Exit(3)
 		})
+		t0 := time.Now()
 		r := runJob(A, j, tail)
+		r.Micros = time.Since(t0).Microseconds()
 		wd.Stop()
 		b, _ := json.Marshal(r)
 		fmt.Fprintf(w, "R %s\n", b)
